@@ -16,8 +16,10 @@ FLAVOURS = {
                                    "-fsanitize=address,undefined,float-cast-overflow",
                                    "-fsanitize-recover=all", "-D_GLIBCXX_SANITIZE_VECTOR"]),
     "tsan": dict(cxx="g++", flags=["-O1", "-g", "-fno-omit-frame-pointer", "-fsanitize=thread"]),
-    # cooperative-scheduler build: hooks yield to the scheduler
-    "coop": dict(cxx="g++", flags=["-O1", "-g", "-fno-omit-frame-pointer", "-DPISTACHE_VERIF_COOP"]),
+    # libFuzzer stage of C03 (thorough tier): clang 14, instrumented library
+    "fuzz": dict(cxx="clang++-14", flags=["-O1", "-g", "-fno-omit-frame-pointer", "-fsanitize=fuzzer-no-link,address,undefined",
+                                          "-fno-sanitize=object-size,float-cast-overflow", "-fno-sanitize-recover=all",
+                                          "-fsanitize-recover=signed-integer-overflow"]),
 }
 COMMON = ["-std=c++17", "-D" + GUARD, "-DONLY_C_LOCALE=1", "-DNDEBUG", "-pthread", "-w"]
 
